@@ -65,6 +65,9 @@ func (m *gmap) find(in *interpreter, k value) *gent {
 	if m == nil {
 		return nil
 	}
+	if li, ok := k.(*lazyIface); ok {
+		k = li.resolve(in)
+	}
 	ksym := isSymbolic(k)
 	if !ksym && m.nsym == 0 {
 		if nativeKey(k) {
@@ -209,6 +212,9 @@ func (m *gmap) normalise(in *interpreter) {
 }
 
 func (m *gmap) insert(in *interpreter, k, v value) {
+	if li, ok := k.(*lazyIface); ok {
+		k = li.resolve(in)
+	}
 	if m == nil {
 		panic(targetPanic{v: "assignment to entry in nil map", stack: in.stack()})
 	}
